@@ -714,6 +714,7 @@ type Spec struct {
 	Verbose  bool     // keep the textual trace
 	MaxOps   int
 	Horizon  time.Duration
+	Serial   bool // single-task computation: no preemption draws at all
 	Main     func(rc *RunCtx)
 }
 
@@ -747,6 +748,9 @@ func Execute(t *testing.T, sp Spec) (out *Outcome) {
 			pms := [...]int{0, 0, 5, 30, 150, 400}
 			s.preempt = pms[tape.Intn(len(pms), "knob.preempt")]
 			tape.shuffle = tape.Intn(2, "knob.selshuffle") == 1
+			if sp.Serial {
+				s.preempt = 0
+			}
 			s.runSched(func() { sp.Main(rc) })
 		})
 	}()
